@@ -198,12 +198,13 @@ def signal_in_dynamics(kind, method):
     ocp = Ocp(T=T, t0=t0)
     x = ocp.state(2); u = ocp.control()
     w = ocp.variable()                                   # a plain global variable besides the signal
+    wc = ocp.variable(grid="control")                    # and a per-interval one
     q = ocp.parameter(); ocp.set_value(q, unknown("qv", 1, 1))
     if kind == "variable":
         s = ocp.variable(grid="bspline", order=1)
     else:
         s = ocp.parameter(grid="bspline", order=1)
-    ocp.set_der(x, ufun("f", 2, [x, u, s, w, q]))
+    ocp.set_der(x, ufun("f", 2, [x, u, s, w, wc, q]))
     N = 2
     if kind == "parameter":
         ocp.set_value(s, unknown("sv", 1, N + 1))
@@ -228,7 +229,7 @@ def signal_in_dynamics(kind, method):
         col = cox_de_boor(K, 1, xi[k])
         sk = sum((Cf[:, i] * col[i] for i in range(len(col))), ca.MX(0.0))
         h = ts[k + 1] - ts[k]
-        f = lambda t, xx, k=k, sk=sk: (ufun("f", 2, [xx, meth.U[k], sk, Wv, Qp]), None)
+        f = lambda t, xx, k=k, sk=sk: (ufun("f", 2, [xx, meth.U[k], sk, Wv, meth.V_control[0][k], Qp]), None)
         xn, _, _, _ = erk_step(RK4, f, X[k] if method == "SS" else ca.MX(meth.X[k]), ts[k], h)
         if method == "MS":
             r = ca.MX(meth.X[k + 1]) - xn
